@@ -479,8 +479,14 @@ func (fe *FnEnc) bitop(op token.Token, at, bt string, w int, signed bool) string
 			for i := 0; i < 8; i++ {
 				parts = append(parts, fmt.Sprintf("(* %s (ite (or (= (mod (div a %s) 2) 1) (= (mod (div b %s) 2) 1)) 1 0))", pow2s(i), pow2s(i), pow2s(i)))
 			}
-			s.axioms = append(s.axioms, "(assert (forall ((a Int) (b Int)) (! (= (bor8 a b) (+ "+strings.Join(parts, " ")+")) :pattern ((bor8 a b)))))")
+			// "opt bor8=laws": only the laws below, not the digit-by-digit definition (which floods the solver with
+			// div/mod terms where the argument needs none of them)
+			if fe.top.ct == nil || fe.top.ct.Opts["bor8"] != "laws" {
+				s.axioms = append(s.axioms, "(assert (forall ((a Int) (b Int)) (! (= (bor8 a b) (+ "+strings.Join(parts, " ")+")) :pattern ((bor8 a b)))))")
+			}
 			s.axioms = append(s.axioms, "(assert (forall ((a Int) (b Int)) (! (= (bor8 (bor8 a b) b) (bor8 a b)) :pattern ((bor8 (bor8 a b) b)))))")
+			s.axioms = append(s.axioms, "(assert (forall ((a Int) (b Int)) (! (=> (and (<= 0 a) (< a 256) (<= 0 b) (< b 256)) (and (<= 0 (bor8 a b)) (< (bor8 a b) 256))) :pattern ((bor8 a b)))))")
+			s.axioms = append(s.axioms, "(assert (forall ((a Int)) (! (=> (and (<= 0 a) (< a 256)) (= (bor8 a 0) a)) :pattern ((bor8 a 0)))))")
 		}
 		return "(bor8 " + at + " " + bt + ")"
 	}
